@@ -16,7 +16,7 @@ PROP = 'C14'
 LEVEL = 'exploration'
 RULE = ('designs of 1-3 library cells (3 libraries, with flip-flop, fan-out, escaped instance names) x branchforks x SDF ASTs: all subsets of IOPATH entries in file order, all permutations of the '
         'full set, duplicates; per entry edge qualifier {none,posedge,negedge} x value form {(r)(f), (r), ()(f), (r)()} by single deviation (pairs in thorough); CELL grouping {one block per '
-        'instance, instance split over two blocks, interleaved blocks}; INTERCONNECT entries port-to-pin / pin-to-pin with and without fan-out / zero-valued, in one or two top-level blocks; '
+        'instance, instance split over two blocks, interleaved blocks} x CELL layout {one DELAY section, one per entry, TIMINGCHECK between two sections, DELAY before INSTANCE, empty DELAY section first, all header entries + comments, single line}; INTERCONNECT entries port-to-pin / pin-to-pin with and without fan-out / zero-valued, in one or two top-level blocks; '
         'every entry carries distinct min:typ:max numbers, also written as integers, negative numbers and with empty fields; distinct_nontrivial = distinct (design, SDF text) pairs with a non-zero expected array')
 ASSUMPTIONS = ['entries are applied in file order (a later entry for the same line/polarity overwrites an earlier one); the output pin of an IOPATH does not select a different line',
                'without branch forks a single-reader interconnect may be annotated on either of the two lines between the pins (both readings of "sole line" accepted)',
